@@ -272,7 +272,8 @@ func Read(r io.Reader) (*Font, error) {
 		}
 
 		var names []string
-		if postInfo != nil {
+		if postInfo != nil && len(postInfo.Names) == len(ttGlyphs) {
+			// glyph names are only usable if there is one for every glyph
 			names = postInfo.Names
 		}
 		Outlines = &glyf.Outlines{
